@@ -182,9 +182,10 @@ func (m *aesCbcMac) Write(p []byte) (int, error) {
 }
 
 func (m *aesCbcMac) Sum(prepend []byte) []byte {
-	// Zero pad and encrypt last block, if any data
+	// Zero pad and encrypt last block, if any data. The message bytes were
+	// XORed into the previous cipher block as they were written, and XORing
+	// the zero padding changes nothing.
 	if m.pos != 0 {
-		copy(m.tag[m.pos:], make([]byte, len(m.tag[m.pos:])))
 		m.Block.Encrypt(m.tag, m.tag)
 	}
 	return append(prepend, m.tag[:m.Size()]...)
